@@ -60,7 +60,7 @@ KEYWORDS = {"return", "delete", "else", "new", "throw", "case", "goto", "typenam
             "true", "false", "NULL", "void", "int", "unsigned", "double", "float", "bool", "char", "long", "short",
             "size_t", "auto", "and", "or", "not", "mutable", "volatile", "extern", "register", "signed"}
 INT_CASTS = re.compile(r"\b(?:static_cast ?< ?(?:IndexType|int|size_t|unsigned|long|std::size_t|unsigned int|typename \w+::\w+|\w+::size_type|Index) ?>|\((?:IndexType|int|size_t|unsigned)\))\s*(?=\()")
-TYPE_RE = r"(?:(?:const|static|unsigned|typename|mutable|volatile) )*[A-Za-z_][\w:]*(?:<(?:[^<>;(){}]|<(?:[^<>;(){}]|<[^<>;(){}]*>)*>)*>)?(?:::\w+)*(?: const)?(?: ?[*&]+)?"
+TYPE_RE = r"(?:(?:const|static|unsigned|typename|mutable|volatile) )*[A-Za-z_][\w:]*(?:<(?:[^<>;(){}]|<(?:[^<>;(){}]|<[^<>;(){}]*>)*>)*>)?(?:::\w+)*(?: const)?(?: ?[*&]+(?: ?const)?)?"
 TYPEISH = re.compile(r"^(?:int|unsigned|double|float|bool|char|long|short|size_t|auto|void)\b|::|<|^[A-Z]\w*[a-z]\w*")
 DECL_RE = re.compile(r"(?:(?<=[;{}])|(?<=for \()|(?<=for\()|^) ?(" + TYPE_RE + r") ?([A-Za-z_]\w*) ?(?=(=[^=]|;|\(|\[|,|:[^:]|\{|\)))")
 
@@ -319,7 +319,14 @@ def parse_for(header):
     v = mi.group(2)
     mc = re.match(r"^%s ?(<=|<|!=) ?(.+)$" % re.escape(v), cond.strip())
     if not mc:
-        return None
+        mf = re.match(r"^(.+?) ?(>=|>) ?%s$" % re.escape(v), cond.strip())       # `B > v` is `v < B`
+        if not mf:
+            return None
+
+        class _Flip:
+            def group(self, i):
+                return {1: "<" if mf.group(2) == ">" else "<=", 2: mf.group(1)}[i]
+        mc = _Flip()
     inc_ok = inc.strip() in ("++" + v, v + "++", v + " += 1")
     return {"var": v, "init": mi.group(3).strip(), "cmp": mc.group(1), "bound": mc.group(2).strip(), "inc_ok": inc_ok,
             "declared": bool(mi.group(1))}
@@ -455,6 +462,7 @@ class Function:
                     if mm:
                         self.decls[mm.group(2)] = Decl(mm.group(2), mm.group(1), "param", None, -1, is_param=True)
         self.multi = set()
+        self.range_vars = {}          # `for (T v : R)` -> R
         self.decl_positions = set()
         for d in find_decls(self.body, scope.start + 1):
             self.decl_positions.add(d.pos)
@@ -497,6 +505,14 @@ def expand(fn, e, depth=0, seen=()):
         pre = e[:m.start()].rstrip()
         if pre.endswith((".", "->", "::")) or name in seen:
             return name
+        post = e[m.end():].lstrip()
+        delimited = (pre[-1:] in ("[", "(", ",") or pre == "") and (post[:1] in ("]", ")", ",") or post == "")
+        if name in fn.range_vars:
+            # the variable of `for (T v : R)` is an element of R
+            r_ = expand(fn, strip_int_casts(fn.range_vars[name]), depth + 1, seen + (name,))
+            if not re.fullmatch(r"[\w.$:]+(?:\([^()]*\))?(?:\[[^\[\]]*\])*", r_):
+                r_ = "(" + r_ + ")"
+            return r_ + "[%]"
         d = fn.decls.get(name)
         if d is None or d.is_param or d.how != "assign" or d.init is None or not fn.stable(name):
             return name
@@ -508,7 +524,7 @@ def expand(fn, e, depth=0, seen=()):
         if re.search(r"\b(?:malloc|calloc)\b|::(?:Zero|Ones|Constant|Random|Identity)\(", init):
             return name          # an allocation names an object, not a value
         inner = expand(fn, init, depth + 1, seen + (name,))
-        if re.fullmatch(r"[\w.$:]+(?:\([^()]*\))?(?:\[[^\[\]]*\])*|\d+", inner):
+        if delimited or re.fullmatch(r"[\w.$:%]+(?:\([^()]*\))?(?:\[[^\[\]]*\])*|\d+", inner):
             return inner
         return "(" + inner + ")"
     return re.sub(r"(?<![\w$])[A-Za-z_]\w*(?![\w(])", repl, e)
@@ -525,6 +541,8 @@ def alpha(fn, e, names=None):
             return name
         if not fn.is_local(name):
             return name
+        if fn.decls[name].loop:
+            return "%"            # a for-loop counter (which one is told by the extent triple / the raw spelling)
         if name not in names:
             names[name] = "$%d" % (len(names) + 1)
         return names[name]
@@ -760,6 +778,12 @@ def scan_function(fn, fsc, sites, text, rel):
     def prep(sc):
         if sc.kind == "for":
             sc.loop = parse_for(sc.header)
+            hv = re.match(r"^for ?\((?:" + TYPE_RE + r" )?([A-Za-z_]\w*) ?=[^=]", sc.header.strip())
+            if hv and hv.group(1) in fn.decls:
+                fn.decls[hv.group(1)].loop = True       # a for-init variable is never looked through, whatever the condition
+            rf = re.match(r"^for ?\(" + TYPE_RE + r" ?([A-Za-z_]\w*) ?: ?(.+)\)$", sc.header.strip())
+            if rf and len(split_top(sc.header.strip()[sc.header.strip().index("(") + 1:-1], ";")) == 1:
+                fn.range_vars[rf.group(1)] = rf.group(2).strip()
             if sc.loop:
                 v = sc.loop["var"]
                 body = text[sc.start + 1:sc.end]
